@@ -62,9 +62,9 @@ class StreamCollection:
 
     def replace(self, stream_dict: Dict[str, Union["Stream", "Stream"]]):
         self._streams = {}
+        self._needs_sort = True
         for stream in stream_dict.values():
             self.add(stream)
-        self._needs_sort = True
 
     def remove(self, stream_name: str):
         if stream_name in self._streams:
